@@ -3330,10 +3330,15 @@ func (t *transport) RoundTrip(hc *HostClient, req *Request, resp *Response) (ret
 				return nil
 			}
 			hc.ReleaseReader(br)
+			unread := false
 			if r, ok := rbs.(*requestStream); ok {
+				// The rest of a body that was not read to its end is
+				// still on the connection (or dropped with the reader):
+				// the connection cannot carry another response.
+				unread = !r.fullyRead()
 				releaseRequestStream(r)
 			}
-			if closeConn || resp.ConnectionClose() || wErr != nil {
+			if closeConn || resp.ConnectionClose() || wErr != nil || unread {
 				hc.CloseConn(cc)
 			} else {
 				hc.ReleaseConn(cc)
